@@ -22,7 +22,7 @@ ASSUMPTIONS = [
     "Modbus/TCP has no checksum: a same-length corrupted remainder may legitimately be accepted there (the property "
     "restricts clause (b) to the checksummed framings)",
 ]
-MUST = ["reassembled_rtu", "reassembled_tcp", "reassembled_aa55", "partial_branch", "leftover_cleared", "late_second_piece",
+MUST = ["reassembled_after_corrupt_answer", "reassembled_rtu", "reassembled_tcp", "reassembled_aa55", "partial_branch", "leftover_cleared", "late_second_piece",
         "wrong_second_piece_refused"]
 EXHAUSTIVE = {"quick": False, "thorough": True}
 EPS = 1e-6
@@ -44,7 +44,12 @@ class FragPeer(ScriptedPeer):
         sc = self.sc
         T = sc["T"]
         v = self.valid(req, n)
-        if n == 1:
+        pre = sc.get("pre")
+        if pre and n == 1:          # transmission 1 is answered by a corrupted frame half a timeout late -> immediate retransmission
+            b = bytearray(v)
+            b[-1] ^= 0x55
+            return self.send(s, bytes(b), 0.5 * T, n, 1)
+        if n == (2 if pre else 1):
             self.v1 = v
             k = sc["split"]
             first, rest = v[:k], v[k:]
@@ -57,7 +62,7 @@ class FragPeer(ScriptedPeer):
             if second is not None and len(second) > 0:
                 self.send(s, second, sc["delay"], n, 2)
             return
-        if n == 2 and sc.get("second_tx") == "remainder":
+        if n == 2 and sc.get("second_tx") == "remainder" and not pre:
             return self.send(s, self.v1[sc["split"]:], 0, n, 1)
         return self.send(s, v, 0, n, 1)
 
@@ -69,11 +74,11 @@ class FragPeer(ScriptedPeer):
         return rc.rtu_response(r2, pl) if self.framing == "rtu" else rc.tcp_response(r2, pl)
 
 
-def scenario(framing, ka, T, R, count, split, kind, delay, second_tx="now", aa55_len=40):
+def scenario(framing, ka, T, R, count, split, kind, delay, second_tx="now", aa55_len=40, pre=None):
     transport = "tcp" if framing == "tcp" else "udp"
     step = ["aa55", "010600", "0186"] if framing == "aa55" else ["read", 300, count]
     return {"transport": transport, "framing": framing, "keep_alive": ka, "T": T, "R": R, "count": count,
-            "split": split, "kind": kind, "delay": delay, "second_tx": second_tx, "aa55_len": aa55_len,
+            "split": split, "kind": kind, "delay": delay, "second_tx": second_tx, "aa55_len": aa55_len, "pre": pre,
             "tasks": [{"start": 0.0, "steps": [step]}]}
 
 
@@ -84,6 +89,8 @@ def check_run(sc, run, part: Part):
         return [(f"C07/{f}/hang", run.stop)]
     rec = run.calls[0]
     txs = [e for e in run.events if e[1] == "tx"]
+    if sc.get("pre") and run.peer.v1 is None:
+        return [(f"C07/{f}/no-retransmission-after-corrupt-answer", f"{len(txs)} transmissions, outcome {rec['outcome']}")]
     pieces = {}
     for e in run.events:
         if e[1] == "psend":
@@ -120,14 +127,18 @@ def check_run(sc, run, part: Part):
             elif header_ok and sc["kind"] in ("plus1", "minus1", "corrupt", "other_remainder"):
                 part.count("wrong_second_piece_refused")
     # (a) exact remainder in time => success, one transmission, exactly the unsplit bytes
+    want_tx = 2 if sc.get("pre") else 1
     if sc["kind"] == "exact" and header_ok and sc["delay"] < T - EPS:
-        if rec["outcome"] != "ok" or len(txs) != 1 or bytes.fromhex(rec["result"]["raw"]) != v1:
+        if rec["outcome"] != "ok" or len(txs) != want_tx or bytes.fromhex(rec["result"]["raw"]) != v1:
             got = rec["result"]["raw"][:60] if rec["outcome"] == "ok" else rec["outcome"]
             out.append((f"C07/{f}/exact-fragments-not-reassembled",
-                        f"count={sc['count']} split={sc['split']} delay={sc['delay']} keep_alive={sc['keep_alive']}: "
+                        f"count={sc['count']} split={sc['split']} delay={sc['delay']} keep_alive={sc['keep_alive']} "
+                        f"{'(after a late corrupted answer to transmission 1) ' if sc.get('pre') else ''}: "
                         f"{len(txs)} transmissions, outcome {got}"))
         else:
             part.count("reassembled_" + f)
+            if sc.get("pre"):
+                part.count("reassembled_after_corrupt_answer")
     if sc["kind"] == "exact" and sc["delay"] > T:
         part.count("late_second_piece")
     if sc["second_tx"] == "remainder" and len(txs) >= 2:
@@ -187,6 +198,10 @@ def run_shard(spec):
                     for second_tx in (("now", "remainder") if (kind == "none" or delay > 1) else ("now",)):
                         sc = scenario(f, spec["ka"], T, 2, count, k, kind, delay, second_tx, spec["aa55_len"])
                         run_case(sc, part)
+            if f != "tcp" and (k in (HEADER[f], HEADER[f] + 1, L - 1) or k % 7 == 0):
+                # the fragmented answer belongs to the RETRANSMISSION that follows a corrupted answer delivered at T/2
+                for delay in (0.3, 0.7, 0.95):
+                    run_case(scenario(f, spec["ka"], T, 2, count, k, "exact", delay, "now", spec["aa55_len"], pre="corrupt_late"), part)
     return part
 
 
